@@ -19,14 +19,16 @@ def noAsync : Op → Bool := fun o => !o.isAsync
 def noSetSize : Op → Bool := fun o => !o.isSetSize
 
 theorem good_init (cap : Cap) (L : Bool) (simple : Option SpawnSpec) : Good cap L (Pool.init cap simple) :=
-  ⟨by cases cap with
+  ⟨⟨by cases cap with
       | fin n => exact ⟨n, rfl, by simp [Pool.init, heldL, grantsL]⟩
       | inf => exact ⟨rfl, rfl⟩,
    fun i tk h _ => by simp [Pool.init] at h,
    ⟨by simp [Pool.init], fun t h => by simp [Pool.init] at h, fun t h => by simp [Pool.init] at h,
     fun t h => by simp [Pool.init] at h, fun _ t tk h _ => by simp [Pool.init] at h⟩,
    ⟨by simp [Pool.init], fun i hi => by simp [Pool.init] at hi⟩,
-   fun t tk h => by simp [Pool.init] at h, fun _ => rfl, fun _ => rfl⟩
+   fun t tk h => by simp [Pool.init] at h, fun _ => rfl, fun _ => rfl⟩,
+   ⟨fun t tk h _ => by simp [Pool.init] at h, fun m r h => by simp [Pool.init] at h,
+    fun m r h => by simp [Pool.init] at h⟩⟩
 
 theorem goodC_invariant : PoolInvariant GoodC noSetSize where
   init := by
@@ -48,8 +50,8 @@ theorem good_setSize {cap : Cap} {L : Bool} (p : Pool) (v : Int) (hg : Good cap 
   unfold Pool.doSetSize
   split
   · exact ⟨cap, hg⟩
-  · exact ⟨.fin (v.toNat + heldL p.tasks + grantsL p.sem.waiters), ⟨v.toNat, rfl, rfl⟩, hg.phase,
-      hg.reg.of_eq rfl rfl rfl rfl rfl, hg.grp.of_eq rfl rfl, hg.life.of_eq rfl rfl, hg.ll, hg.al⟩
+  · exact ⟨.fin (v.toNat + heldL p.tasks + grantsL p.sem.waiters), ⟨⟨v.toNat, rfl, rfl⟩, hg.phase,
+      hg.reg.of_eq rfl rfl rfl rfl rfl, hg.grp.of_eq rfl rfl, hg.life.of_eq rfl rfl, hg.ll, hg.al⟩, hg.map.of_eq rfl rfl⟩
 
 /-- phase and registry invariants (with *some* slot conservation) hold in every pool after **every** history,
 assignments to `pool_size` included -/
@@ -139,6 +141,14 @@ theorem strictAll (base : Nat) (h : History) (hn : ∀ x ∈ h, x.admits noAsync
     p.lost = false ∧ RegOK p ∧ LifeOK p := by
   obtain ⟨cap, hg⟩ := (World.reachable strictC_invariant base h hn).inv i c p hc hp
   exact ⟨hg.ll rfl, hg.reg, hg.life⟩
+
+/-- the books of every call's own `num_concurrent` semaphore, in every pool of every reachable world, whatever the
+history (assignments to `pool_size` included) -/
+theorem mapAll (base : Nat) (h : History) (i : Nat) (c : Cfg) (p : Pool)
+    (hc : ((World.init base).run h).cfgs[i]? = some c) (hp : ((World.init base).run h).pools[i]? = some p) :
+    MapOK p := by
+  obtain ⟨cap, hg⟩ := (World.reachable baseC_invariant base h (fun x _ => admits_all x)).inv i c p hc hp
+  exact hg.map
 
 /-- the number of workers that have begun and not finished -/
 def Pool.live (p : Pool) : Nat := p.tasks.countP (fun t => t.phase == .inWorker)
